@@ -33,6 +33,9 @@ static int holaMode(const char *inFile, const char *outFile, long skip, long pha
             for (auto &e : es) G.addEdge(ns[e.first - 1], ns[e.second - 1]);
             HolaOpts ho;
             ho.useACAforLinks = (opts & 1) != 0; ho.do_near_align = (opts & 2) != 0; ho.preferConvexTrees = (opts & 4) != 0;
+            // bits 3-4: aspect-ratio preference (0 default = LANDSCAPE, 1 NONE, 2 PORTRAIT, 3 LANDSCAPE); bits 5-6: preferred tree growth direction E,S,W,N (0 = default SOUTH)
+            { int ar = (opts >> 3) & 3; if (ar == 1) ho.preferredAspectRatio = AspectRatioClass::NONE; else if (ar == 2) ho.preferredAspectRatio = AspectRatioClass::PORTRAIT;
+              int gd = (opts >> 5) & 3; if (gd == 1) ho.preferredTreeGrowthDir = CardinalDir::EAST; else if (gd == 2) ho.preferredTreeGrowthDir = CardinalDir::WEST; else if (gd == 3) ho.preferredTreeGrowthDir = CardinalDir::NORTH; }
             double pad = ho.nodePaddingScalar * G.getIEL() / 2.0;   // per side: padAllNodes adds the padding to the width
             Logger lg;    // no output directory: the per-phase TGLF strings are kept in memory
             doHOLA(G, ho, &lg);
